@@ -771,10 +771,16 @@ impl<E: Effect> Executor<E> {
         // Store the result in the process's awaiting map (retaining as it enters storage).
         if self.get_process(awaiter).is_some() {
             self.retain(&injected_result);
-            self.get_process_mut(awaiter)
+            let previous = self
+                .get_process_mut(awaiter)
                 .unwrap()
                 .awaiting
                 .insert(awaited, Some(injected_result));
+            // A result already stored for this process (e.g. notified once by the same worker and
+            // once via the environment) leaves storage here.
+            if let Some(Some(previous)) = previous {
+                self.release(&previous);
+            }
         }
 
         // Re-queue awaiter to retry its Select instruction
@@ -2238,8 +2244,15 @@ impl<E: Effect> Executor<E> {
 
         // If we found PIDs, register awaits before processing sources
         if !pid_targets.is_empty() {
+            // A result kept from an earlier select on the same process leaves storage here.
+            let mut stale = Vec::new();
             for target in &pid_targets {
-                process.awaiting.insert(*target, None);
+                if let Some(Some(previous)) = process.awaiting.insert(*target, None) {
+                    stale.push(previous);
+                }
+            }
+            for previous in &stale {
+                self.release(previous);
             }
 
             self.mark_selecting(pid);
@@ -2586,9 +2599,15 @@ impl<E: Effect> Executor<E> {
 
         // The message clone enters the select_state.receiving slot.
         self.retain(&message);
+        let mut previous = None;
         if let Some(state) = &mut proc.select_state {
-            state.receiving = Some((receive_idx, message.clone()));
+            previous = state.receiving.replace((receive_idx, message.clone()));
             state.cursors[receive_idx] = msg_idx;
+        }
+        // A message still held for another receive source's filter (whose verdict is being
+        // discarded because an earlier source now has a candidate) leaves the slot here.
+        if let Some((_, previous)) = &previous {
+            self.release(previous);
         }
 
         // The message (parameter) and source (the receive function) enter the call's stack frame.
